@@ -6,7 +6,7 @@ sys.path.insert(0, here)
 from harness.registry import CHECKS, NOT_APPLICABLE, HOOK_COMMITS, ENGINES, NOTES
 
 checks = []
-for c in CHECKS:
+for c in sorted(CHECKS, key=lambda c: c["id"]):
     pid = c["id"]
     checks.append({
         "property_id": pid,
